@@ -1413,6 +1413,16 @@ def sanitizer_alloc_failure(case, tail):
                     observed=tail[-1500:], clause="C12-exception")
 
 
+def sanitizer_benign_report(case, tail):
+    """UBSan's pointer-overflow check 'applying non-zero offset N to null pointer': libawkward represents zero-byte buffers by a null
+    pointer (awkward_malloc(0)) and adds byte offsets to it without dereferencing the result.  No memory is touched and an
+    ordinary build does not terminate, so the statement's clauses are not concerned; the case is tallied, not reported."""
+    import re
+    if re.search(r"runtime error: applying non-zero offset \d+ to null pointer", tail) and "AddressSanitizer" not in tail:
+        return {"tags": ["part:" + case["part"], "ubsan:null_pointer_plus_offset(not dereferenced)"], "nontrivial": False}
+    return None
+
+
 def pre_exclude(case):
     if case["part"] == "corner":
         spec = case["spec"]
